@@ -280,7 +280,7 @@ def isArrayOp : Op → Bool
   | .anew _ | .anewcap _ _ | .acopy _ | .aassign _ | .areserve _ _ | .aresize _ _ _ | .aappend _ _ | .aappenda _
   | .aappendn _ _ | .aremovei _ _ | .aremove _ _ | .aremoveFront _ | .aremoveBack _ | .aclear _ | .aswap _
   | .afind _ _ | .aget _ _ | .afront _ | .aback _ | .aeq _ _
-  | .aappendself _ | .aappendref _ _ | .aresizeref _ _ _ | .aassignself _ | .aappendsub _ _ _ => true
+  | .aappendself _ | .aappendref _ _ | .aresizeref _ _ _ | .aassignself _ | .aappendsub _ _ _ | .aresized _ _ => true
   | _ => false
 
 /-- one Array operation of the machine at cell level (`none` = precondition violated or fault);
@@ -314,6 +314,7 @@ def rstep (p : RPair) (op : Op) : Option RPair :=
   | .aresizeref v n i => un v (fun r => resizeRef r n i)
   | .aassignself v => if v < 2 then some p else none
   | .aappendsub v i n => un v (fun r => appendSub r i n)
+  | .aresized v n => un v (fun r => resize r n 0)
   | _ => some p
 
 def rrun (p : RPair) : List Op → RPair
